@@ -86,6 +86,15 @@ def hRead (f : FsCfg) (h : Handle) (n : Nat) : M (Handle × Bytes × Bool) := do
       let r := streamRead data pos n
       pure ({ h with reader := some (data, r.2.1) }, r.1, r.2.2)
 
+/-- the (re)start of the stream inside `Seek`.  A `Restore` that fails is noticed only when bytes
+    are asked for: the goroutine hands its error to the pipe, and `io.CopyN` with a non-positive
+    count (`lazyOk`) never reads from it. -/
+def seekStart (f : FsCfg) (h : Handle) (lazyOk : Bool) : M Handle := do
+  match ← M.attempt (startReader f { h with reader := none }) with
+  | .ok h' => pure h'
+  | .error .stuck => M.fail .stuck
+  | .error e => if lazyOk then pure { h with reader := none } else M.fail e
+
 /-- `seekWithoutLocking`: note the return value in streaming mode — the number of bytes
     skipped, not the new offset — and `SeekEnd` subtracting the offset (finding F23) -/
 def hSeekNoLock (f : FsCfg) (h : Handle) (offset : Int) (whence : Int) : M (Handle × Int) := do
@@ -102,9 +111,9 @@ def hSeekNoLock (f : FsCfg) (h : Handle) (offset : Int) (whence : Int) : M (Hand
       | none => 0
     if !(whence == SEEK_SET || whence == SEEK_CUR || whence == SEEK_END) then M.fail .notImplemented else
     let dst : Int := if whence == SEEK_SET then offset else if whence == SEEK_CUR then cur + offset else h.info.size - offset
-    let h ← (if h.reader.isNone || dst < cur then startReader f { h with reader := none } else pure h)
+    let h ← (if h.reader.isNone || dst < cur then seekStart f h (decide (dst ≤ 0)) else pure h)
     match h.reader with
-    | none => M.fail .other
+    | none => if dst ≤ 0 then pure (h, 0) else M.fail .other
     | some (data, pos) =>
       -- `io.CopyN` with a non-positive count copies nothing; on EOF while skipping the whole stream
       -- is consumed and the value returned depends on whence
